@@ -1,5 +1,317 @@
 import Driver.Common
-/-! Driver for C15 (stub: not built yet). -/
-def main (_args : List String) : IO UInt32 := do
-  IO.eprintln "C15: driver not implemented"
-  return 2
+import CoapVerif.Model.PoolOptions
+import CoapVerif.Spec.SortedMultiset
+/-!
+Driver for C15.  `drv_c15 model` replays operation lines on `Model/Options*.lean` / `Model/PoolOptions.lean` and prints
+what the Go harness prints; `drv_c15 judge` reads `operation | observed output` lines and evaluates the
+sorted-multiset specification's judge (`Spec/SortedMultiset.lean`) on the whole history.
+-/
+namespace Driver.C15
+open CoapVerif.Model.Options
+open CoapVerif.Spec (SortedMultiset.Op SortedMultiset.Obs SortedMultiset.RefState SortedMultiset.Kind)
+
+/-- growth policies used when *executing* the model (the theorems hold for all): doubling -/
+def g (c : Nat) : Nat := if c = 0 then 1 else 2 * c
+def gb (c need : Nat) : Nat := max (2 * c) need
+
+structure Slot where
+  opts : Options View
+  vb : Slice
+  orig : Slice
+
+structure St where
+  pool : Bool
+  bufSize : Nat
+  mem : Mem
+  cur : Slot
+  oth : Slot
+
+def St.msg (s : St) : Msg := ⟨s.mem, s.cur.opts, s.cur.vb, s.cur.orig⟩
+def St.put (s : St) (r : Msg) : St := { s with mem := r.mem, cur := ⟨r.opts, r.vb, r.orig⟩ }
+
+def errStr : Err → String
+  | .notFound => "notfound" | .tooSmall => "toosmall" | .invalidLen => "invalid"
+
+def oerr : Option Err → String
+  | none => "ok" | some e => errStr e
+
+def fmtItems (l : List (Nat × List UInt8)) : String :=
+  " ".intercalate (toString l.length :: l.map (fun x => s!"{x.1}:{toHex x.2}"))
+
+def listOf (s : St) : String := fmtItems s.msg.items
+
+def parseItem (t : String) : Option (Nat × List UInt8) :=
+  match t.splitOn ":" with
+  | [a, b] => do
+    let id ← a.toNat?
+    let v ← parseHex? b
+    pure (id, v)
+  | _ => none
+
+def parseItems (ts : List String) : Option (List (Nat × List UInt8)) := ts.mapM parseItem
+
+/-- result of one model step: the `ret …` text and the new state; `none` state = runtime panic -/
+abbrev Out := String × Option St
+
+def fin (s : St) (ret : String) : Out := (s!"{ret} | {listOf s}", some s)
+
+def runM (s : St) (x : M (St × String)) : Out :=
+  match x with
+  | .ok (s', ret) => fin s' ret
+  | .error (.explicit e) => fin s s!"ret xpanic-{errStr e}"
+  | .error _ => ("panic runtime | ?", none)
+
+def vbLen (s : St) : Nat := s.cur.vb.len
+
+/-- editing through the Options API with the object's own buffer (raw) -/
+def rawEdit (s : St) (f : Mem → Options View → Slice → M Res) : M (St × String) := do
+  let (r, used, e) ← s.msg.rawApply f
+  pure (s.put r, s!"ret {oerr e} {used}")
+
+/-- editing through a pool.Message method of the retry family -/
+def poolEdit (s : St) (x : M (Msg × Option Err)) (explicitPanic : Bool) : M (St × String) := do
+  let (r, e) ← x
+  let s' := s.put r
+  match e with
+  | none => pure (s', s!"ret ok {vbLen s'}")
+  | some e => pure (s', s!"ret {if explicitPanic then "xpanic-" else ""}{errStr e} {vbLen s'}")
+
+def hexList (vs : List (List UInt8)) : String := " ".intercalate (vs.map toHex)
+
+def step (s : St) (ws : List String) : Out :=
+  let m := s.mem
+  let o := s.cur.opts
+  match ws with
+  | "resetto" :: _n :: items =>
+    match parseItems items with
+    | none => ("bad-op", some s)
+    | some inp =>
+      -- the caller's values live in memory of their own
+      let (m1, views) := inp.foldl (fun (acc : Mem × List (Opt View)) x =>
+        let (m', v) := acc.1.allocBytes x.2; (m', acc.2 ++ [(x.1, v)])) (m, [])
+      let s1 := { s with mem := m1 }
+      if s.pool then runM s1 (poolEdit s1 (s1.msg.resetOptionsTo g gb views) true)
+      else runM s1 (rawEdit s1 (fun m o b => Options.resetOptionsTo g m o b views))
+  | [op, id, hex] =>
+    match id.toNat?, parseHex? hex, hex.toNat? with
+    | some id, some v, _ =>
+      if op = "set" ∨ op = "add" ∨ op = "setstr" ∨ op = "addstr" then
+        let isSet := op = "set" ∨ op = "setstr"
+        if s.pool then
+          if op = "set" ∨ op = "add" then
+            runM s (do let r ← s.msg.putOptionBytes isSet g gb id v; let s' := s.put r; pure (s', s!"ret ok {vbLen s'}"))
+          else runM s (poolEdit s (if isSet then s.msg.setOptionString g gb id v else s.msg.addOptionString g gb id v) true)
+        else runM s (rawEdit s (fun m o b => if isSet then Options.setBytes g m o b id v else Options.addBytes g m o b id v))
+      else if op = "setu32" ∨ op = "addu32" then
+        match hex.toNat? with
+        | some n =>
+          if s.pool then runM s (poolEdit s (if op = "setu32" then s.msg.setOptionUint32 g gb id n else s.msg.addOptionUint32 g gb id n) true)
+          else runM s (rawEdit s (fun m o b => if op = "setu32" then Options.setUint32 g m o b id n else Options.addUint32 g m o b id n))
+        | none => ("bad-op", some s)
+      else if op = "getu32s" ∨ op = "getstrs" ∨ op = "getbytess" then
+        match hex.toNat? with
+        | some n =>
+          if op = "getu32s" then
+            runM s (do let (c, e, vs) ← Options.getUint32s m o id n
+                       pure (s, " ".intercalate ([s!"ret {oerr e} {c}"] ++ vs.map toString)))
+          else
+            runM s (do let (c, e, vs) ← (if op = "getstrs" then Options.getStrings m o id n else Options.getBytess m o id n)
+                       pure (s, " ".intercalate ([s!"ret {oerr e} {c}"] ++ vs.map toHex)))
+        | none => ("bad-op", some s)
+      else ("bad-op", some s)
+    | some id, none, some n =>
+      if op = "setu32" ∨ op = "addu32" then
+        if s.pool then runM s (poolEdit s (if op = "setu32" then s.msg.setOptionUint32 g gb id n else s.msg.addOptionUint32 g gb id n) true)
+        else runM s (rawEdit s (fun m o b => if op = "setu32" then Options.setUint32 g m o b id n else Options.addUint32 g m o b id n))
+      else if op = "getu32s" then
+        runM s (do let (c, e, vs) ← Options.getUint32s m o id n
+                   pure (s, " ".intercalate ([s!"ret {oerr e} {c}"] ++ vs.map toString)))
+      else if op = "getstrs" ∨ op = "getbytess" then
+        runM s (do let (c, e, vs) ← (if op = "getstrs" then Options.getStrings m o id n else Options.getBytess m o id n)
+                   pure (s, " ".intercalate ([s!"ret {oerr e} {c}"] ++ vs.map toHex)))
+      else ("bad-op", some s)
+    | _, _, _ => ("bad-op", some s)
+  | [op, a] =>
+    if op = "setpath" ∨ op = "setloc" ∨ op = "addquery" then
+      match parseHex? a with
+      | some p =>
+        if op = "addquery" then
+          if s.pool then runM s (poolEdit s (s.msg.addQuery g gb p) true)
+          else runM s (rawEdit s (fun m o b => Options.addString g m o b CoapVerif.Generated.OptionList.uriQuery p))
+        else
+          let id := if op = "setpath" then CoapVerif.Generated.OptionList.uriPath else CoapVerif.Generated.OptionList.locationPath
+          if s.pool then
+            if op = "setloc" then ("bad-op", some s) else runM s (poolEdit s (s.msg.setPath g gb p) false)
+          else runM s (rawEdit s (fun m o b => Options.setPath g m o id b p))
+      | none => ("bad-op", some s)
+    else
+      match a.toNat? with
+      | none => ("bad-op", some s)
+      | some id =>
+        if op = "remove" then
+          if s.pool then runM s (do let r ← s.msg.remove id; let s' := s.put r; pure (s', s!"ret ok {vbLen s'}"))
+          else runM s (do let o' ← o.remove id; pure ({ s with cur := { s.cur with opts := o' } }, "ret ok 0"))
+        else if op = "find" then
+          runM s (do match ← o.find id with
+                     | none => pure (s, "ret notfound -1 -1")
+                     | some (a, b) => pure (s, s!"ret ok {a} {b}"))
+        else if op = "has" then runM s (do let b ← o.has id; pure (s, s!"ret ok {if b then 1 else 0}"))
+        else if op = "getu32" then
+          runM s (do match ← Options.getUint32 m o id with
+                     | none => pure (s, "ret notfound 0")
+                     | some v => pure (s, s!"ret ok {v}"))
+        else if op = "getstr" ∨ op = "getbytes" then
+          runM s (do match ← Options.getBytes m o id with
+                     | none => pure (s, "ret notfound -")
+                     | some v => pure (s, s!"ret ok {toHex v}"))
+        else ("bad-op", some s)
+  | ["clone"] =>
+    if s.pool then
+      -- cur.Clone(other): other.ResetOptionsTo(cur.Options()); then `other` becomes current
+      let dst : Msg := ⟨s.mem, s.oth.opts, s.oth.vb, s.oth.orig⟩
+      runM s (do
+        let (r, e) ← dst.resetOptionsTo g gb s.cur.opts.toList
+        match e with
+        | some e => .error (.explicit e)
+        | none =>
+          let s' : St := { s with mem := r.mem, cur := ⟨r.opts, r.vb, r.orig⟩, oth := s.cur }
+          pure (s', s!"ret ok {vbLen s'}"))
+    else
+      runM s (do
+        let (m1, c, e) ← Options.clone g m o
+        match e with
+        | some e => pure ({ s with mem := m1 }, s!"ret {errStr e} 0")
+        | none =>
+          let (m2, b) := m1.alloc s.bufSize
+          pure ({ s with mem := m2, cur := ⟨c, b, b⟩, oth := s.cur }, "ret ok 0"))
+  | ["swap"] => let s' := { s with cur := s.oth, oth := s.cur }; fin s' s!"ret ok {if s.pool then vbLen s' else 0}"
+  | ["reset"] =>
+    runM s (do let r ← s.msg.reset; let s' := s.put r; pure (s', s!"ret ok {if s.pool then vbLen s' else 0}"))
+  | ["path"] | ["locpath"] =>
+    let id := if ws = ["path"] then CoapVerif.Generated.OptionList.uriPath else CoapVerif.Generated.OptionList.locationPath
+    runM s (do let (p, e) ← Options.pathString m o id
+               pure (s, s!"ret {oerr e} {toHex p}"))
+  | ["queries"] =>
+    runM s (do match ← Options.queries m o with
+               | none => pure (s, "ret notfound 0")
+               | some vs => pure (s, " ".intercalate ([s!"ret ok {vs.length}"] ++ vs.map toHex)))
+  | ["cf"] =>
+    runM s (do match ← Options.contentFormatOf m o with
+               | none => pure (s, "ret notfound 0")
+               | some v => pure (s, s!"ret ok {v}"))
+  | _ => ("bad-op", some s)
+
+def newState (ws : List String) : Option St :=
+  match ws with
+  | ["new", "raw", c, b] => do
+    let c ← c.toNat?
+    let b ← b.toNat?
+    let (m1, b1) := Mem.alloc [] b
+    let (m2, b2) := m1.alloc b
+    pure ⟨false, b, m2, ⟨Options.make c, b1, b1⟩, ⟨Options.make 0, b2, b2⟩⟩
+  | ["new", "pool", c] => do
+    let c ← c.toNat?
+    let a := Msg.new [] c
+    let b := Msg.new a.mem CoapVerif.Generated.OptionList.newMessageOptionsCap
+    pure ⟨true, 0, b.mem, ⟨a.opts, a.vb, a.orig⟩, ⟨b.opts, b.vb, b.orig⟩⟩
+  | _ => none
+
+def modelLine (st : Option St) (line : String) : String × Option St :=
+  let ws := words line
+  match ws with
+  | "new" :: _ =>
+    match newState ws with
+    | some s => (s!"ret ok {if s.pool then vbLen s else 0} | 0", some s)
+    | none => ("bad-op", none)
+  | _ =>
+    match st with
+    | none => ("dead", none)
+    | some s => step s ws
+
+/-! ### judge mode -/
+open CoapVerif.Spec.SortedMultiset in
+def parseOp (ws : List String) : Option Op :=
+  match ws with
+  | ["new", "raw", c, b] => do pure (.new .raw (← c.toNat?) (← b.toNat?))
+  | ["new", "pool", c] => do pure (.new .pool (← c.toNat?) 0)
+  | ["set", id, v] => do pure (.put true false (← id.toNat?) (← parseHex? v))
+  | ["add", id, v] => do pure (.put false false (← id.toNat?) (← parseHex? v))
+  | ["setstr", id, v] => do pure (.put true true (← id.toNat?) (← parseHex? v))
+  | ["addstr", id, v] => do pure (.put false true (← id.toNat?) (← parseHex? v))
+  | ["setu32", id, v] => do pure (.putU32 true (← id.toNat?) (← v.toNat?))
+  | ["addu32", id, v] => do pure (.putU32 false (← id.toNat?) (← v.toNat?))
+  | ["remove", id] => do pure (.remove (← id.toNat?))
+  | ["setpath", p] => do pure (.setPath uriPathId (← parseHex? p))
+  | ["setloc", p] => do pure (.setPath 8 (← parseHex? p))
+  | ["addquery", q] => do pure (.addQuery (← parseHex? q))
+  | "resetto" :: _ :: items => do pure (.resetTo (← parseItems items))
+  | ["clone"] => some .clone
+  | ["swap"] => some .swap
+  | ["reset"] => some .reset
+  | ["find", id] => do pure (.find (← id.toNat?))
+  | ["has", id] => do pure (.has (← id.toNat?))
+  | ["getu32", id] => do pure (.getFirst "getu32" (← id.toNat?))
+  | ["getstr", id] => do pure (.getFirst "getstr" (← id.toNat?))
+  | ["getbytes", id] => do pure (.getFirst "getbytes" (← id.toNat?))
+  | ["getu32s", id, n] => do pure (.getMulti "getu32s" (← id.toNat?) (← n.toNat?))
+  | ["getstrs", id, n] => do pure (.getMulti "getstrs" (← id.toNat?) (← n.toNat?))
+  | ["getbytess", id, n] => do pure (.getMulti "getbytess" (← id.toNat?) (← n.toNat?))
+  | ["path"] => some (.path uriPathId)
+  | ["locpath"] => some (.path 8)
+  | ["queries"] => some .queries
+  | ["cf"] => some .contentFormat
+  | _ => none
+
+open CoapVerif.Spec.SortedMultiset in
+def parseObs (s : String) : Option Obs :=
+  match s.splitOn " | " with
+  | [ret, lst] =>
+    match words lst with
+    | _ :: items =>
+      match parseItems items with
+      | none => none
+      | some its =>
+        match words ret with
+        | "panic" :: _ => some ⟨true, "panic", [], its⟩
+        | "ret" :: e :: rets => some ⟨false, e, rets, its⟩
+        | _ => none
+    | [] => none
+  | _ => none
+
+open CoapVerif.Spec.SortedMultiset in
+def judgeLine (st : Option RefState) (line : String) : String × Option RefState :=
+  match line.splitOn " | " with
+  | opS :: rest =>
+    match parseOp (words opS), parseObs (" | ".intercalate rest) with
+    | some op, some ob =>
+      let st0 : RefState := match st with | some s => s | none => ⟨.raw, 0, ⟨[], some 0⟩, ⟨[], some 0⟩⟩
+      match op, st with
+      | .new .., _ | _, some _ =>
+        let (v, st') := judgeStep st0 op ob
+        (v, some st')
+      | _, none => ("bad-op no object", none)
+    | _, _ => ("bad-op unparsable", st)
+  | [] => ("bad-op", st)
+
+def run (mode : String) : IO UInt32 := do
+  let stdin ← IO.getStdin
+  let stdout ← IO.getStdout
+  if mode == "model" then
+    let _ ← foldLines stdin (none : Option St) fun st line => do
+      let (out, st') := modelLine st line
+      stdout.putStrLn out
+      pure st'
+  else
+    let _ ← foldLines stdin (none : Option CoapVerif.Spec.SortedMultiset.RefState) fun st line => do
+      let (out, st') := judgeLine st line
+      stdout.putStrLn out
+      pure st'
+  stdout.flush
+  return 0
+
+end Driver.C15
+
+def main (args : List String) : IO UInt32 :=
+  match args with
+  | [mode] => Driver.C15.run mode
+  | _ => do IO.eprintln "usage: drv_c15 model|judge"; return 2
